@@ -44,6 +44,20 @@ pub fn slice_single<T>(s: &[T]) -> (r: Option<&T>)
 
 pub assume_specification<T> [Option::<T>::or] (a: Option<T>, b: Option<T>) -> (r: Option<T>)
     ensures r == (if a is Some { a } else { b });
+/// std contract of `HashMap::get_mut`: the entry the borrowed key denotes may change, every other entry and the key
+/// set are kept.  "j is the key `k` denotes" is expressed with vstd's borrowed-key predicate on the map restricted to j.
+pub assume_specification<'a, K: Eq + core::hash::Hash + core::borrow::Borrow<Q>, V, S: core::hash::BuildHasher, A: core::alloc::Allocator, Q: ?Sized + core::hash::Hash + Eq>
+    [std::collections::HashMap::<K, V, S, A>::get_mut::<Q>] (m: &'a mut std::collections::HashMap<K, V, S, A>, k: &Q) -> (r: Option<&'a mut V>)
+    ensures
+        vstd::std_specs::hash::obeys_key_model::<K>() && vstd::std_specs::hash::builds_valid_hashers::<S>() ==> (match r {
+            Some(v) => vstd::std_specs::hash::contains_borrowed_key(old(m)@, k) && vstd::std_specs::hash::maps_borrowed_key_to_value(old(m)@, k, *v)
+                && vstd::std_specs::hash::contains_borrowed_key(final(m)@, k) && vstd::std_specs::hash::maps_borrowed_key_to_value(final(m)@, k, *final(v))
+                && final(m)@.dom() == old(m)@.dom()
+                && (forall|j: K| #![trigger final(m)@[j]] old(m)@.contains_key(j)
+                        && !vstd::std_specs::hash::maps_borrowed_key_to_value(old(m)@.restrict(set![j]), k, old(m)@[j]) ==> final(m)@[j] == old(m)@[j]),
+            None => !vstd::std_specs::hash::contains_borrowed_key(old(m)@, k) && *final(m) == *old(m),
+        }),
+;
 /// std contract of `Option::get_or_insert_with`: the slot keeps its value or receives `f()`, and the returned
 /// reference is the slot's content (used by the pinned `Attributes::doc`; kept so that code using it stays decidable)
 #[verifier::allow(undeclared_external_trait)]
@@ -365,6 +379,8 @@ pub proof fn lemma_seq_sum_prefix_le(s: Seq<usize>, k: int)
 }
 
 pub assume_specification [<crate::grammar::Module as Clone>::clone] (p: &crate::grammar::Module) -> (r: crate::grammar::Module)
+    ensures r == *p;
+pub assume_specification [<crate::grammar::FunctionBlock as Clone>::clone] (p: &crate::grammar::FunctionBlock) -> (r: crate::grammar::FunctionBlock)
     ensures r == *p;
 pub assume_specification [<crate::grammar::ItemDefinition as Clone>::clone] (p: &crate::grammar::ItemDefinition) -> (r: crate::grammar::ItemDefinition)
     ensures r == *p;
